@@ -903,6 +903,9 @@ class Layout:
             t = t + self.eol() + r.choice(["", "  ", "\t", "      "]) + r.choice(self.COMMENT_TEXT).replace("*/", "")
         k = r.random()
         if k < 0.5:
+            if r.random() < 0.3:
+                # banner style: runs of '*' next to the opening and the closing mark, and inside the text
+                t = r.choice(["", "*", "**", "* ", "***"]) + t + r.choice(["", " ** ", "*a"]) + r.choice(["*", "**", " *", "***", " ****", ""])
             return "/*" + t + "*/"
         t = t.replace("“", "").replace("”", "").replace("「", "").replace("」", "")
         if k < 0.75:
